@@ -51,7 +51,7 @@ def full_alphabet(game):
     if game == "osu":
         props += ["volume", "hitsound_set"]
     for p in props:
-        for o, a in (("+", 5), ("*", 2), ("=", 7)):
+        for o, a in (("+", 5), ("*", 2), ("=", 7), ("*", 1.5)):
             ops.append(("prop", p, o, a))
     if game == "osu":
         ops.append(("prop", "hitsound_file", "=", "f.wav"))
@@ -61,6 +61,9 @@ def full_alphabet(game):
         for cols in (("column",), ("offset",), ("offset", "column"), ("length",)):
             for o, a in (("+", 5), ("=", 7)):
                 ops.append(("loc", mn, cols, o, a))
+        # non-integral results (integer-typed columns of charts read from files must not truncate them)
+        ops.append(("loc", mn, ("offset", "length"), "*", 1.5))
+        ops.append(("loc", mn, ("offset",), "+", 0.25))
     for name in ("hits", "notes", "bpms"):
         ops.append(("inc", name, "offset", "+", 5))
         if name != "bpms":
@@ -90,6 +93,9 @@ def core_alphabet(game):
         ("loc", "none", ("offset",), "=", 7),
         ("loc", "all", ("length",), "=", 7),
         ("loc", "all", ("offset",), "+", 5),
+        ("loc", "off>", ("offset", "length"), "*", 1.5),
+        ("loc", "all", ("offset",), "+", 0.25),
+        ("prop", "offset", "*", 1.5),
         ("inc", "hits", "offset", "+", 5),
         ("inc", "hits", "column", "=", 3),
         ("inc", "notes", "offset", "+", 5),
@@ -285,6 +291,8 @@ def lib_apply(m, op, stacker=None, mask=None):
         mask = lib_mask(s, mn) if mask is None else mask
         if o == "+":
             s.loc[mask, key] += a
+        elif o == "*":
+            s.loc[mask, key] *= a
         else:
             s.loc[mask, key] = a
         return s
